@@ -192,6 +192,13 @@ def vPlus (a : Vec K) (b : Nat → K) : Vec K := applyVia Gen.vplusVia a b
 /-- `a - b` -/
 def vMinus (a : Vec K) (b : Nat → K) : Vec K := applyVia Gen.vminusVia a b
 
+/-- binary `a + b` / `a - b` applied to an object whose storage holds `a`, with `r` the value `z` has after `z += b` / `z -= b`:
+(the result, the storage of the first operand afterwards).  When `z` is declared with the operand's own type
+(`Gen.vplusResult = .sameType`) and the operand is a scalar view, `z` is a second handle onto the same scalar and the compound
+assignment writes through it -/
+def binObj (mode : NegResult) (isView : Bool) (a r : Vec K) : Vec K × Vec K :=
+  if mode == .sameType && isView then (r, r) else (r, a)
+
 /-- fvector.hh `vector * scalar`: the loop `Gen.fvsig_times` (`result[i] = vector[i] * scalar`) on a fresh `result` -/
 def vscale (n : Nat) (x : Nat → K) (k : K) : Nat → K := (ewSemVec Gen.fvsig_times n x x k (zeroVec n)).get
 /-- fvector.hh `scalar * vector`: the loop `Gen.fvsig_ltimes` -/
